@@ -110,6 +110,11 @@ def run(ctx, res):
             corpus.append(f"BEGIN:VFREEBUSY\r\nFREEBUSY:{a}/{b}\r\nEND:VFREEBUSY\r\n")
             corpus.append(f"BEGIN:VEVENT\r\nUID:u\r\nRDATE;VALUE=PERIOD:{a}/{b}\r\nSUMMARY:kept\r\nEND:VEVENT\r\n")
     corpus.append("BEGIN:VFREEBUSY\r\nFREEBUSY;TZID=Europe/Berlin:20200101T000000/20200103T000000Z\r\nEND:VFREEBUSY\r\n")
+    # names that are not ASCII but upper-case (str.upper) to the names the line loop treats specially
+    for nm in ("DT\u017fTART", "dt\u017ftart", "DT\ufb06ART", "D\u0131ue".replace("\u0131ue", "UE"), "EXDATE\u0301", "RDATE\u200b", "DU\u0117",
+               "RECURRENCE-\u0131D", "FREEBU\u017fY", "BEG\u0131N", "\u212aEY"):
+        for wrap in ("VEVENT", "VTODO", "VFREEBUSY"):
+            corpus.append(f"BEGIN:{wrap}\r\nUID:u\r\n{nm};TZID=Europe/Berlin:20300102T100000\r\n{nm}:20300102T100000\r\nEND:{wrap}\r\n")
     cases = [("corpus", c) for c in corpus] + cases
     res.rule = ("malformed inputs: structure-aware mutations (1-3 of: delete/duplicate/swap line, insert token, truncate, splice token "
                 "line, cut, hostile TZID parameter, stray BEGIN/END) of every fixture and of generated calendars, token soup, nesting up "
@@ -179,7 +184,7 @@ def run(ctx, res):
         oa, ob = T.obs_comp(a), T.obs_comp(b)
         strip = lambda o: [o[0], o[1], [strip(s) for s in o[2]]]  # noqa: E731
         nerr = lambda o: len(o[3]) + sum(nerr(s) for s in o[2])  # noqa: E731
-        if strip(oa) != strip(ob) or nerr(oa) != nerr(ob) + 1 or len(a.subcomponents[0].errors) != 1:
+        if strip(oa) != strip(ob) or nerr(oa) != nerr(ob) + 1 or len(a.subcomponents[0].errors) != len(b.subcomponents[0].errors) + 1:
             res.fail("C04 isolation: dropping the bad line changes more than one error entry", {"bad": bad, "text": wrap(with_bad)},
                      observed=[strip(oa) == strip(ob), nerr(oa), nerr(ob)])
         # the same line outside a lenient component
